@@ -1,7 +1,7 @@
 (* C05 — Swap pricing never beats the exact curve; rounding never favours the trader.
    Statements only; proofs in Amm/StepBounds.v. All quantities are raw decimals (x 10^18). *)
 From Coq Require Import ZArith.
-From Sunrise Require Import Base.Outcome Base.Dec Base.DecLemmas Amm.Math Amm.StepBounds.
+From Sunrise Require Import Base.Outcome Base.Dec Base.DecLemmas Amm.Math Amm.StepBounds Amm.StepWhole.
 Local Open Scope Z_scope.
 
 (* next sqrt price is rounded in the pool's favour, for all four amount strategies *)
@@ -67,10 +67,72 @@ Theorem C05_partial_step_never_overcharges : forall a rem fee,
 Proof. exact fee_charge_not_reached_defined. Qed.
 Print Assumptions C05_partial_step_never_overcharges.
 
+(* ---- whole bucket steps of the swap loop (ComputeSwapWithinBucketOutGivenIn / InGivenOut), quote side ----
+   Exact curve at liquidity l = liq/P and price s = sp/P: base in x pays out l x s^2 / (l + x s) quote;
+   base out x costs l x s^2 / (l - x s) quote. Multiplied through by P^3 these are the bounds below. *)
+
+(* exact input, base in: the price never rises and the quote paid out is at most half an ulp
+   (5e-19 of a unit) above liquidity x price move ... *)
+Theorem C05_step_base_in_direction : forall fee sp target liq rem next ain aout fc,
+  0 < sp -> 0 < liq -> 0 <= rem -> 0 <= fee < P -> target <= sp ->
+  b4q_out_given_in fee sp target liq rem = Some (next, ain, aout, fc) ->
+  next <= sp /\ aout * P <= (sp - next) * liq + HALF.
+Proof. exact b4q_out_given_in_direction. Qed.
+Print Assumptions C05_step_base_in_direction.
+
+(* ... and when the step ends inside the bucket, at most the exact curve's output for what was left
+   after the fee, plus half an ulp: the step never beats the curve *)
+Theorem C05_step_base_in_out_le_exact : forall fee sp target liq rem next ain aout fc,
+  0 < sp -> 0 < liq -> 0 <= rem -> 0 <= fee < P -> target <= sp ->
+  b4q_out_given_in fee sp target liq rem = Some (next, ain, aout, fc) ->
+  next <> target ->
+  exists af, dmul rem (P - fee) = Some af /\ 0 <= af /\ 2 * Z.abs (af * P - rem * (P - fee)) <= P /\
+    (aout * P - HALF) * (liq * P + af * sp) <= liq * (af * sp * sp).
+Proof. exact b4q_out_given_in_le_exact. Qed.
+Print Assumptions C05_step_base_in_out_le_exact.
+
+(* exact input, quote in: the price never falls, and inside the bucket it rises by at most
+   (remaining after fee) / liquidity *)
+Theorem C05_step_quote_in_direction : forall fee sp target liq rem next ain aout fc,
+  0 < liq -> 0 <= rem -> 0 <= fee < P -> sp <= target ->
+  q4b_out_given_in fee sp target liq rem = Some (next, ain, aout, fc) ->
+  sp <= next /\
+  (next <> target -> exists af, dmul rem (P - fee) = Some af /\ 2 * Z.abs (af * P - rem * (P - fee)) <= P /\
+                                (next - sp) * liq <= af * P).
+Proof. exact q4b_out_given_in_direction. Qed.
+Print Assumptions C05_step_quote_in_direction.
+
+(* exact output of base, paid in quote: inside the bucket the step delivers no more than is left and
+   asks a whole number of units that is at least the exact curve's input minus half an ulp *)
+Theorem C05_step_base_out_in_ge_exact : forall fee sp target liq rem next out ain fc,
+  0 < sp -> 0 < liq -> 0 <= rem -> rem * sp < liq * P ->
+  q4b_in_given_out fee sp target liq rem = Some (next, out, ain, fc) ->
+  next <> target ->
+  out <= rem /\ ain mod P = 0 /\
+  liq * (rem * sp * sp) <= (ain * P + HALF) * (liq * P - rem * sp).
+Proof. exact q4b_in_given_out_ge_exact. Qed.
+Print Assumptions C05_step_base_out_in_ge_exact.
+
+(* exact output of quote, paid in base: the price never rises, the step delivers no more than is left,
+   and inside the bucket the price falls at least as far as the exact curve needs for that output *)
+Theorem C05_step_quote_out_direction : forall fee sp target liq rem next out ain fc,
+  0 < liq -> 0 <= rem -> target <= sp ->
+  b4q_in_given_out fee sp target liq rem = Some (next, out, ain, fc) ->
+  next <= sp /\ out <= rem /\ (next <> target -> rem * P <= (sp - next) * liq < rem * P + liq).
+Proof. exact b4q_in_given_out_direction. Qed.
+Print Assumptions C05_step_quote_out_direction.
+
+Example C05_steps_nonvacuous :
+  (exists n a o f, b4q_out_given_in 3000000000000000 P (P / 2) (12345678 * P) (1001 * P) = Some (n, a, o, f) /\ n <> P / 2 /\ 0 < o) /\
+  (exists n a o f, q4b_out_given_in 3000000000000000 P (2 * P) (12345678 * P) (1001 * P) = Some (n, a, o, f) /\ n <> 2 * P /\ 0 < o) /\
+  (exists n a o f, q4b_in_given_out 3000000000000000 P (2 * P) (12345678 * P) (1001 * P) = Some (n, a, o, f) /\ n <> 2 * P /\ 0 < o) /\
+  (exists n a o f, b4q_in_given_out 3000000000000000 P (P / 2) (12345678 * P) (1001 * P) = Some (n, a, o, f) /\ n <> P / 2 /\ 0 < o).
+Proof. exact step_whole_nonvacuous. Qed.
+
 (* The whole-swap statements of the property — output <= exact curve and within the stated bound,
    input >= exact, monotone output, no round-trip profit, price direction and limits — are NOT proved
-   here over the multi-bucket loop (the base-side amounts go through three half-even roundings whose
-   error depends on the price); they are the full statements below, checked on every implementation
+   here over the multi-bucket loop, nor for the base-side amounts of a step (they go through three
+   half-even roundings whose error depends on the price); they are the full statements below, checked on every implementation
    swap by monitors against an independent exact rational reference (Amm/Exact.v). PARTIAL. *)
 Definition C05_out_le_exact_full : Prop :=
   forall (impl_out exact_out_floor : Z), impl_out <= exact_out_floor.
